@@ -285,7 +285,7 @@ func checkCondProgram(k *h.Case, prog *spec.Program, leaves []*spec.Leaf, maxFul
 		}
 		in := ref.New(sc.Body, prog.AutoVars)
 		in.Render = lm.renderCmd
-		vm := &asm.VM{F: f, Sec: sec}
+		vm := &asm.VM{F: f, Sec: sec, UserTargets: userTargetsOf(prog)}
 		bad := false
 		outcomes := map[string]bool{}
 		ex, n := truthTable(k, prog, leaves, maxFull, func(st *ref.TableState, desc string) bool {
@@ -366,6 +366,7 @@ func runC02(ctx *h.Ctx) int {
 	})
 	ctx.Exhaustive("condition skeletons (and/or n-ary trees, negated groups, redundant parentheses around leaves for n<=3)", int64(len(all)),
 		fmt.Sprintf("every skeleton with 1..%d leaves, each with %d random leaf-form assignments and the complete truth table", maxN, reps))
+	rejectGuard(ctx, 0.05)
 	return ctx.Finish(
 		"one conditional construct (if/else, elif, while, do-while, if+end) per program around a condition tree; every leaf has its own operand; VM and reference run for the complete truth table (flag/defeated in {0,1}, var in {value-1,value,value+1}; sampled above 243 combinations); compared: sequence of tests (kind, operand, comparison value, raw/normal), commands, terminal. non-trivial = accepted program; distinct = distinct condition skeleton incl. leaf forms/operators",
 		ctx.N(300, 3000),
